@@ -119,6 +119,8 @@ class C20Reports(Monitor):
             need("Best fitness:", f"{lb:.4e}", sec)
             need("Number of evaluations:", str(sum(d.n_evaluations for d in lvl)), sec)
             need("Number of demes:", str(len(lvl)), sec)
+            if self.ctx.desc.get("per_level_report_with_a_shared_stats_wrapper") and sum(1 for l_ in tree.levels if l_) >= 2:
+                self.cov("per_level_lines_checked_with_one_stats_wrapper_shared_by_two_populated_levels")
         if ttext not in text:
             self.v("tree() is not contained in the default summary()", where=where)
         # tree() lines
